@@ -299,7 +299,9 @@ def c15(ctx):
     insites = set(views.site(f, bi)[1:3] for bi, t in f.calls() if q.names(t)[1] in cl)
     k = 0
     total = 0
-    for g in ro.fns_in_scope(fx, crates=("libxcp", "libfs")):
+    # (callers inside libfs are the providing side -- a backend trait forwarding to the clone function, a
+    # convenience `copy_file` -- and have no Config to decide by; the rule is about who *uses* the clone API)
+    for g in ro.fns_in_scope(fx, crates=("libxcp", "xcp")):
         for bi, t in g.calls():
             if q.names(t)[1] in cl:
                 total += 1
@@ -403,7 +405,21 @@ def c15(ctx):
         kinds = __import__("p_thread").thread_roles(fx)[1]
         if kinds.get(lab) == "pool-job":
             continue            # block jobs are queued by a (gated) POOL_EXECUTE of a worker role
-        perf = ro.performers(fx, v, DATA_COPY - {POOL_EXECUTE})
+        # (a driver's copy() is where the worker roles are started: calling it -- through the trait object or, with
+        # static dispatch, directly or through a delegating wrapper -- is not moving data in *this* role)
+        def _driver_call(t_):
+            o_, p_ = q.names(t_)
+            if o_ == DRIVER_COPY or (p_ or "").endswith(" as libxcp::drivers::CopyDriver>::copy"):
+                return True
+            if p_ in fx.fns and fx.fns[p_].crate == "libxcp":
+                r_ = q.callgraph(fx).reach(p_)
+                return DRIVER_COPY in r_ or any(y.endswith(" as libxcp::drivers::CopyDriver>::copy") for y in r_)
+            return False
+        if lab.endswith(" as libxcp::drivers::CopyDriver>::copy"):
+            continue
+        # (what a spawned closure does is that closure's own role, judged on its own)
+        perf = [x for x in ro.performers(fx, v, DATA_COPY - {POOL_EXECUTE})
+                if not _driver_call(x[1]) and q.names(x[1])[0] not in (SPAWN, POOL_EXECUTE)]
         obs.append(Ob("R-WHO", mkkey("R-WHO", views.label_of(lab) + ":" + ("drop" if lab == DROP else "role"), "data-copy", 0, "none"),
                       not perf, v.loc(), lab, "role %s moves no file data: %s" % (lab.split("::")[-1], not perf),
                       None if not perf else dict(sites=[q.loc_of(t) for b_, t, h in perf])))
@@ -421,7 +437,7 @@ def c15(ctx):
             if any(x in r for x in cfgg.returns):
                 for i in idents:
                     if isinstance(i, int) and i != 0:
-                        found.add(i)
+                        found.add(65536 - i if 61440 <= i < 65536 else i)      # rustix keeps -errno in a u16
                     elif isinstance(i, str):
                         v_ = r_err.ERRNO.get(i, r_err.ERRNO.get(i[1:] if i.startswith("E") else i))
                         if v_:
@@ -464,7 +480,9 @@ def filetype_table(fx):
         "Other": dict(op=None, calls=set(), send=False, fail=True),
     }
     effects = {CREATE_DIR_ALL, "std::fs::read_link", SYMLINK, FILE_CREATE, MKNODAT, REMOVE_FILE, RENAME}
-    sends = [bi for bi, t in q.calls_to(f, CB_SEND) if "Operation" in " ".join(t.get("arg_tys", []))]
+    import p_thread as _pt
+    _pt._op_types(fx)
+    sends = [bi for bi, t in q.calls_to(f, CB_SEND) if _pt._has_op(" ".join(t.get("arg_tys", [])))]
     heads = [bi for bi, t in f.calls() if (callee_path(t) or "").startswith("<walkdir::") and
              callee_orig(t) == "core::iter::traits::iterator::Iterator::next"]
     exits = heads + p_thread.ok_blocks(f)
@@ -553,8 +571,20 @@ def op_regions(fx, w):
     sw = type_variant_switches(f, OPERATION)
     if not sw:
         return f, {}
-    sb, m = sw[0]
-    return f, {v: edge_region(f, sb, tb) | {tb} for v, tb in m.items()}
+    # the dispatch is the match whose arms do the work; a `Display`/`Debug` rendering of the operation for a log
+    # line (inlined from a hand-written impl) also matches on it, with arms of a few blocks
+    return f, op_dispatch(f)[2]
+
+
+def op_dispatch(f):
+    """(switch block, {variant: target}, {variant: region}) of the match on Operation whose arms do the work."""
+    best = None
+    for sb, m in type_variant_switches(f, OPERATION):
+        regs = {v: edge_region(f, sb, tb) | {tb} for v, tb in m.items()}
+        size = sum(len(r_) for r_ in regs.values())
+        if best is None or size > best[0]:
+            best = (size, sb, m, regs)
+    return (best[1], best[2], best[3]) if best else (None, {}, {})
 
 
 # effects compared between the drivers: what is done to the destination, the gates consulted, and the
@@ -675,8 +705,7 @@ def arms_must_create(fx, variants=("Copy", "Link", "Special")):
             continue
         cfg = cfg_of(f)
         sig = r_err.signal_blocks(f)
-        sw = type_variant_switches(f, OPERATION)
-        sb, m = sw[0]
+        sb, m, _regs = op_dispatch(f)
         for v in variants:
             if v not in regs:
                 obs.append(anchor_ob("R-ORDER", "%s: Operation::%s arm" % (w, v)))
@@ -1268,7 +1297,10 @@ def c16(ctx):
         return
     sbs = [bi for bi, t in sp]
     # the spawned closure is the one that runs the driver
-    runs = all(any(DRIVER_COPY in q.callgraph(fx).reach(fv) for fv in t["fn"].get("fnvals", [])) for bi, t in sp)
+    def _drives(fv):
+        r_ = q.callgraph(fx).reach(fv)
+        return DRIVER_COPY in r_ or any(x.endswith(" as libxcp::drivers::CopyDriver>::copy") for x in r_)
+    runs = all(any(_drives(fv) for fv in t["fn"].get("fnvals", [])) for bi, t in sp)
     obs.append(Ob("R-WHO", mkkey("R-WHO", MAIN, SPAWN, 0, "runs-driver"), runs, q.loc_of(sp[0][1]), MAIN,
                   "the spawned closure is what runs CopyDriver::copy: %s" % runs))
     prefix = [b for b in cfg.reachable() if not cfg.set_dominates(sbs, b)]
